@@ -75,6 +75,11 @@ fn classify(node: &MonNode, findings: &mut [Finding]) {
                     }
                 }
             }
+            // (5) a join declares <probe-side ordering> extended lexicographically by <build-side ordering>; that only
+            //     holds when the probe-side ordering has no ties
+            if name.ends_with("JoinExec") && f.detail.get("deciding_position").and_then(|p| p.as_u64()).unwrap_or(0) >= 1 && !f.detail.get("null_placement").and_then(|b| b.as_bool()).unwrap_or(false) {
+                f.sig = format!("{}[lexicographic-extension-across-join-sides]", f.sig);
+            }
             // (4) the result column of a set-monotonic window aggregate is declared NULLS LAST although the
             //     NULLs of empty / all-NULL frames come first (or the reverse for reversed frames)
             if (name == "WindowAggExec" || name == "BoundedWindowAggExec") && f.detail.get("null_placement").and_then(|b| b.as_bool()).unwrap_or(false) {
@@ -141,9 +146,9 @@ fn run(args: &Args) -> i32 {
         return replay(p);
     }
     let cfg = GenCfg::default();
-    let n_sys = args.bound("systematic", 1400, 6000);
-    let n_fix = args.bound("fixture", 580, 2900);
-    let n_rand = args.bound("random", 1000, 60_000);
+    let n_sys = args.bound("systematic", 2400, 8000);
+    let n_fix = args.bound("fixture", 1160, 5800);
+    let n_rand = args.bound("random", 2500, 80_000);
     let fx = match Fixture::new(28, 48) {
         Ok(f) => f,
         Err(e) => {
@@ -175,7 +180,7 @@ fn run(args: &Args) -> i32 {
     rep.obligation("repartition-elided", rep.get_count("plans_repartition_elided") >= 20, "plans in which a key-distribution requirement is met without a hash repartition");
     // seeded random tail
     vcommon::par::run(args.workers, 0..n_rand, |i| {
-        if rep.violation_count() > 40 || !rep.within_budget(75.0) {
+        if rep.violation_count() > 4000 || !rep.within_budget(args.tier.pick(75.0, 900.0)) {
             return;
         }
         if i % 5 == 4 {
